@@ -81,6 +81,212 @@ def check_then_use(fn: ast.AST) -> List[Tuple[ast.AST, ast.AST]]:
     return out
 
 
+def check_split_full_prefix(ctx, d) -> None:
+    """R6, full prefix: a scope becomes the candidate of split() only when ALL of its elements matched the reference."""
+    sp = d.func("OutputReference.split")
+    cfg = CFG(sp)
+    loops_ = [n for n in source.walk_own(sp) if isinstance(n, ast.For) and isinstance(n.iter, ast.Name)]
+    if not loops_:
+        return
+    cand = loops_[0].target.id if isinstance(loops_[0].target, ast.Name) else None
+    picks = [n for n in cfg.nodes if n.kind == "stmt" and isinstance(n.ast, ast.Assign) and isinstance(n.ast.value, ast.Name) and n.ast.value.id == cand]
+    if not picks:
+        return      # another shape (e.g. slice equality): R6's other obligations decide
+    # counters that are incremented in the element-wise loop
+    counters = {n.target.id for n in ast.walk(sp) if isinstance(n, ast.AugAssign) and isinstance(n.target, ast.Name)}
+    if not counters:
+        return      # no element-counting loop: the scope is matched as a whole (slice equality, terminated prefix), decided above
+
+    def full_label(t: ast.AST) -> Optional[str]:
+        cp = match.compare_parts(t)
+        if not cp or not isinstance(cp[1], (ast.Eq, ast.NotEq)):
+            return None
+        for a_, b_ in ((cp[0], cp[2]), (cp[2], cp[0])):
+            if isinstance(a_, ast.Name) and a_.id in counters and isinstance(b_, ast.Call) and call_name(b_) == "len" and b_.args \
+                    and isinstance(b_.args[0], ast.Name) and b_.args[0].id == cand:
+                return "T" if isinstance(cp[1], ast.Eq) else "F"
+        return None
+    full_tests = match.test_nodes(cfg, full_label)
+    for pk in picks:
+        in_for_else = any(isinstance(a_, ast.For) and any(pk.ast is x for st_ in a_.orelse for x in ast.walk(st_)) for a_ in source.ancestors(pk.ast))
+        ok = in_for_else or (bool(full_tests) and match.only_via_edges(cfg, pk, full_tests))
+        ctx.ob("C06.R6-scope-match-by-component", pk.ast, ok,
+               "a scope is a candidate only when every one of its elements matched (it is a prefix of the reference)" if ok else
+               "split() makes a scope the candidate by the number of leading equal elements even when the scope is not a prefix of the reference: "
+               "'<entry-instance/wf/missing>/file.txt:ref' (no such step) is bound to another step of the same workflow instead of being "
+               "rejected", construct="split: %s <- all elements of the scope matched" % short(pk.ast, 40))
+
+
+def check_match_before_use(ctx, d) -> None:
+    rule = "C06.R10-match-checked-before-use"
+    MATCHERS = ("match", "fullmatch", "search")
+    DEREF = ("group", "groupdict", "groups", "start", "end", "span")
+    n_sites = 0
+    for q, f in d.functions.items():
+        if q.count(".") > 1 and False:
+            continue
+        mvars = {t.id for n in source.walk_own(f) if isinstance(n, ast.Assign) and isinstance(n.value, ast.Call)
+                 and last_attr(n.value) in MATCHERS and not (call_name(n.value) or "").startswith("os.")
+                 for t in n.targets if isinstance(t, ast.Name)}
+        if not mvars:
+            continue
+        uses = [x for x in source.walk_own(f) if isinstance(x, ast.Call) and isinstance(x.func, ast.Attribute) and x.func.attr in DEREF
+                and isinstance(x.func.value, ast.Name) and x.func.value.id in mvars]
+        if not uses:
+            continue
+        cfg = CFG(f)
+        ctx.analysed(f)
+        for u in uses:
+            var = u.func.value.id
+            n_sites += 1
+            nodes = [n for n in cfg.nodes if n.ast is not None and n.kind in ("stmt", "test", "for", "with") and not isinstance(n.ast, (ast.If, ast.While, ast.For, ast.Try, ast.With, ast.FunctionDef))
+                     and any(u is x for x in ast.walk(n.ast))]
+            if not nodes:
+                continue
+
+            def not_none_label(t: ast.AST, var=var) -> Optional[str]:
+                if isinstance(t, ast.Name) and t.id == var:
+                    return "T"
+                if isinstance(t, ast.UnaryOp) and isinstance(t.op, ast.Not) and isinstance(t.operand, ast.Name) and t.operand.id == var:
+                    return "F"
+                cp = match.compare_parts(t)
+                if cp and isinstance(cp[0], ast.Name) and cp[0].id == var and isinstance(cp[2], ast.Constant) and cp[2].value is None:
+                    if isinstance(cp[1], (ast.IsNot, ast.NotEq)):
+                        return "T"
+                    if isinstance(cp[1], (ast.Is, ast.Eq)):
+                        return "F"
+                return None
+            guards = match.test_nodes(cfg, not_none_label)
+            # a use inside the same boolean expression after 'm and m.group()' is guarded by the atom order: those atoms are test nodes too
+            ok = bool(guards) and all(match.only_via_edges(cfg, n, guards) for n in nodes)
+            ctx.ob(rule, u, ok,
+                   "%s is dereferenced only where it is not None" % var if ok else
+                   "%s: %s is dereferenced although the match may have failed: the AttributeError leaves namespace_to_flowir as it is - e.g. a "
+                   "component step called 'echo2' (step names may end in a digit, template names may not) - instead of a DSLInvalidError that "
+                   "names the location" % (q, short(u, 40)), construct="%s: %s guarded by a None test" % (q, short(u, 40)))
+    ctx.floor(rule, n_sites, 2, "dereferences of regular-expression match objects in dsl.py")
+
+
+def check_loops_progress(ctx, d) -> None:
+    from vlib import loops
+    rule = "C06.R11-loops-make-progress"
+    n_loops = 0
+    for q, f in d.functions.items():
+        ws = [w for w in source.walk_own(f) if isinstance(w, ast.While)]
+        if not ws:
+            continue
+        n_loops += len(ws)
+        ctx.analysed(f)
+        stuck = loops.stuck_cycles(f)
+        for (w, path) in stuck:
+            lines = [getattr(x.ast, "lineno", None) for x in path if x.ast is not None]
+            ctx.ob(rule, w, False,
+                   "%s: the loop 'while %s' has a cycle (lines %s) on which no variable is updated in terms of itself, nothing is mutated and only "
+                   "pure functions are called: once taken it is taken again for ever - namespace_to_flowir never returns (e.g. a parameter that "
+                   "holds a reference to a Workflow instance)" % (q, short(w.test, 30), lines), construct="%s: while %s makes progress" % (q, short(w.test, 30)))
+        if not stuck:
+            for w in ws:
+                ctx.ob(rule, w, True, "every cycle of 'while %s' changes something or calls something opaque" % short(w.test, 30),
+                       construct="%s: while %s makes progress" % (q, short(w.test, 30)))
+    ctx.floor(rule, n_loops, 3, "while loops in dsl.py")
+
+
+def check_ancestor_chain(ctx, d) -> None:
+    """R9: what _check_for_cycle reads must mean 'the scopes that are open right now'."""
+    rule = "C06.R9-ancestor-chain-is-balanced"
+    cyc = d.func("ScopeStack._check_for_cycle")
+    ent = d.func("ScopeStack.enter")
+    ext = d.func("ScopeStack.exit")
+    for f in (cyc, ent, ext):
+        ctx.analysed(f)
+
+    def self_attrs_read(f) -> Set[str]:
+        return {x.attr for x in ast.walk(f) if isinstance(x, ast.Attribute) and isinstance(x.value, ast.Name) and x.value.id == "self"
+                and isinstance(x.ctx, ast.Load) and not isinstance(source.parent(x), ast.Call)}
+    read = {a for a in self_attrs_read(cyc) if a not in ("log",)}
+    ctx.require(bool(read), "anchor missing: the container _check_for_cycle reads")
+
+    def mutations(f, attr: str):
+        out = []
+        for c in ast.walk(f):
+            if isinstance(c, ast.Call) and isinstance(c.func, ast.Attribute) and isinstance(c.func.value, ast.Attribute) \
+                    and isinstance(c.func.value.value, ast.Name) and c.func.value.value.id == "self" and c.func.value.attr == attr:
+                out.append((c.func.attr, c.args[0] if c.args else None, c))
+            if isinstance(c, ast.Assign):
+                for t in c.targets:
+                    if isinstance(t, ast.Subscript) and isinstance(t.value, ast.Attribute) and isinstance(t.value.value, ast.Name) \
+                            and t.value.value.id == "self" and t.value.attr == attr:
+                        out.append(("setitem", t.slice, c))
+            if isinstance(c, ast.Delete):
+                for t in c.targets:
+                    if isinstance(t, ast.Subscript) and isinstance(t.value, ast.Attribute) and getattr(t.value.value, "id", None) == "self" and t.value.attr == attr:
+                        out.append(("delitem", t.slice, c))
+        return out
+    # the scope object of enter() and the constructor keywords that tie its fields to enter()'s parameters
+    scope_ctor = next((n for n in ast.walk(ent) if isinstance(n, ast.Assign) and isinstance(n.value, ast.Call)
+                       and (call_name(n.value) or "").endswith("Scope") and isinstance(n.targets[0], ast.Name)), None)
+    field_of_param = {}
+    scope_var = None
+    if scope_ctor is not None:
+        scope_var = scope_ctor.targets[0].id
+        for k in scope_ctor.value.keywords:
+            if isinstance(k.value, ast.Name):
+                field_of_param[k.value.id] = k.arg
+
+    def path_in_enter(e: ast.AST):
+        """attribute path of e relative to the scope being entered"""
+        parts = []
+        while isinstance(e, ast.Attribute):
+            parts.append(e.attr)
+            e = e.value
+        if isinstance(e, ast.Name):
+            if e.id == scope_var:
+                return tuple(reversed(parts))
+            if e.id in field_of_param:
+                return (field_of_param[e.id],) + tuple(reversed(parts))
+        return None
+
+    def path_in_exit(e: ast.AST, popped: Set[str]):
+        parts = []
+        while isinstance(e, ast.Attribute):
+            parts.append(e.attr)
+            e = e.value
+        if isinstance(e, ast.Name) and e.id in popped:
+            return tuple(reversed(parts))
+        return None
+    popped = {t.id for n in ast.walk(ext) if isinstance(n, ast.Assign) and isinstance(n.value, ast.Call) and last_attr(n.value) == "pop"
+              for t in n.targets if isinstance(t, ast.Name)}
+    # a property of Scope may rename a field (Scope.name -> location[-1]); compare through the spelling only - a renamed equivalent is
+    # reported, which is the safe side
+    for attr in sorted(read):
+        grow = [m for m in mutations(ent, attr) if m[0] in ("append", "add", "setitem", "insert", "update", "setdefault")]
+        shrink = [m for m in mutations(ext, attr) if m[0] in ("pop", "remove", "discard", "delitem", "clear")]
+        if not grow and not shrink:
+            ctx.ob(rule, cyc, False, "_check_for_cycle decides from self.%s, which enter()/exit() do not maintain" % attr,
+                   construct="self.%s is maintained by enter/exit" % attr)
+            continue
+        for (kind, key, node) in grow:
+            if kind == "append":
+                ok = any(k2 == "pop" and (a2 is None or (isinstance(a2, ast.UnaryOp) and isinstance(a2.operand, ast.Constant) and a2.operand.value == 1))
+                         for (k2, a2, _) in shrink)
+                ctx.ob(rule, node, ok, "self.%s is a stack: enter() appends, exit() pops the last entry" % attr if ok else
+                       "enter() appends to self.%s but exit() does not pop the last entry: the chain of open scopes is wrong after the first exit" % attr,
+                       construct="self.%s: append <-> pop" % attr)
+            else:
+                kp = path_in_enter(key) if key is not None else None
+                matches = [path_in_exit(a2, popped) for (k2, a2, _) in shrink if a2 is not None]
+                ok = kp is not None and kp in matches
+                ctx.ob(rule, node, ok,
+                       "self.%s: exit() removes the key that enter() added for the same scope (%s)" % (attr, ".".join(kp or ())) if ok else
+                       "enter() records %s in self.%s but exit() removes %s: the entry of a scope is not cleared when the scope is left (unless two "
+                       "different names happen to coincide), so self.%s no longer means 'the scopes that are open now' - a template that is "
+                       "instantiated under two different parents is reported as a cycle although the namespace is acyclic"
+                       % (short(key, 40) if key is not None else "?", attr,
+                          ", ".join(short(a2, 30) for (_, a2, _) in shrink if a2 is not None) or "nothing", attr),
+                       construct="self.%s: key added by enter() == key removed by exit()" % attr)
+    ctx.floor(rule, len(read), 1, "containers read by the cycle detector")
+
+
 def run(ctx) -> None:
     ctx.explanation = (
         "Rejection clause and structural parts of the DSL 2.0 compiler: explicit-raise escape analysis of "
@@ -96,6 +302,14 @@ def run(ctx) -> None:
     ctx.rule("C06.R5-ignore-list-scope", "parameter references may stay unresolved only inside a component's own body and only for that component's variables (plus 'replica')")
     ctx.rule("C06.R6-scope-match-by-component", "OutputReference.split binds a reference to the step whose location is a prefix of the "
              "reference's location component by component (tuple elements), never as text ('gen' is a textual prefix of 'gen-data')")
+    ctx.rule("C06.R10-match-checked-before-use", "in dsl.py the result of a regular-expression match/fullmatch/search is dereferenced "
+             "(.group, .groupdict, .start, .end, .span) only where it was tested not to be None: otherwise the input that does not match "
+             "leaves the compiler as AttributeError, not as DSLInvalidError")
+    ctx.rule("C06.R11-loops-make-progress", "no while loop of dsl.py has a cycle on which nothing changes (no self-dependent update, no "
+             "mutation, only pure calls): such a cycle repeats for ever and the compiler never returns")
+    ctx.rule("C06.R9-ancestor-chain-is-balanced", "the cycle detector of ScopeStack decides from containers that enter() grows and exit() "
+             "shrinks symmetrically: a list pushed and popped, or a set/dict whose removal key is the same quantity of the popped scope "
+             "as the key that was added for the entered one")
     ctx.rule("C06.R8-no-use-after-failed-membership-test", "where the compiler tests 'k not in D' to record an error, no path from the "
              "failing side reaches an unguarded D[k]: the implicit KeyError would leave namespace_to_flowir as a bare exception "
              "instead of a DSLInvalidError that lists the location")
@@ -332,6 +546,12 @@ def run(ctx) -> None:
     ctx.ob("C06.R8-no-use-after-failed-membership-test", d.tree, True, "%d membership tests inspected in dsl.py" % n8,
            construct="membership tests of dsl.py", trivial=True)
     ctx.floor("C06.R8-no-use-after-failed-membership-test", n8, 20, "membership tests in dsl.py")
+
+    # ---------------- R9 -------------------------------------------------------------------------------
+    check_ancestor_chain(ctx, d)
+    check_match_before_use(ctx, d)
+    check_loops_progress(ctx, d)
+    check_split_full_prefix(ctx, d)
 
     # ---------------- R6 -------------------------------------------------------------------------------
     sp = d.func("OutputReference.split")
